@@ -580,6 +580,14 @@ DebugAlias == [cs |-> st.cs, ss |-> st.ss, hi |-> st.hi, ec |-> st.ec, fc |-> st
 
 P_C15 == P_C15_React /\ P_C15_Total /\ P_C15_Streams /\ P_C15_Structural /\ P_C15_ConnErrorCloses
 
+\* vacuity guards (TLC's -coverage runs out of memory on this module): each of these MUST be violated
+Never_Peer_Preface == [][~(\E k \in PrefaceKinds : Peer_Preface(k))]_vars
+Never_Peer_Frame == [][~(\E f \in Frames : Peer_Frame(f))]_vars
+Never_Sozu_Respond == [][~(\E x \in OddSids : Sozu_Respond(x))]_vars
+Never_Sozu_Close == [][~Sozu_Close]_vars
+Never_Tick_Decay == [][~Tick_Decay]_vars
+Never_Sozu_SettingsTimeout == [][~Sozu_SettingsTimeout]_vars
+
 ---------------------------------------------------------------------------
 (* Generators *)
 FrameSeq == SetToSeq(Frames)
